@@ -170,7 +170,8 @@ func (r *Decoder) parseRoot() error {
 	}
 
 	if len(r.defaultBase) > 0 {
-		opts.BaseURL = r.defaultBase
+		// RFC 3986, section 5.1: a base is used without its fragment
+		opts.BaseURL, _, _ = strings.Cut(r.defaultBase, "#")
 	}
 
 	ets, err := jsonldinternal.Expand(ts, opts)
